@@ -595,10 +595,16 @@ fn query(rng: &mut Rng, ctx: &mut Ctx, fam: &Fam, class: &str) {
         "bary" => {
             let p = fam.qpoint(rng, ctx);
             ctx.op(q2(ctx, "bary", p));
+            if rng.chance(500) {
+                ctx.op(q2(ctx, "baryi", p));
+            }
         }
         "nnw" => {
             let p = fam.qpoint(rng, ctx);
             ctx.op(q2(ctx, "nnw", p));
+            if rng.chance(500) {
+                ctx.op(q2(ctx, "nnwi", p));
+            }
         }
         "vor" => {
             ctx.op(vec![s("vor")]);
